@@ -160,6 +160,9 @@ func genHistory(r *hx.Rand, idx int, tier, mode string) *hx.Case {
 			}
 		}
 		o := op{Op: "rescale", N: n2, Perm: genPerm(r, n)}
+		if mode == "c06" {
+			o.Reuse = r.Chance(1, 3)
+		}
 		if mode == "c14" {
 			o.Op = "save"
 			o.Fold, o.Late, o.Retain = r.Chance(1, 3), r.Chance(1, 2), r.Chance(1, 3)
@@ -173,6 +176,22 @@ func genHistory(r *hx.Rand, idx int, tier, mode string) *hx.Case {
 		ops = append(ops, hx.Op(o))
 		n = n2
 		wm = 0
+		if mode == "c06" && r.Chance(1, 4) {
+			// the operators work on and checkpoint locally, but the job checkpoint is never published; the job then
+			// deploys the PREVIOUS job checkpoint again (same or another operator count, ids reused or fresh)
+			genEvents(r, &ops, nkeys, r.Range(1, 8), &val, &wm, 0)
+			if r.Chance(3, 4) {
+				ops = append(ops, hx.Op(op{Op: "ckpt"}))
+				genEvents(r, &ops, nkeys, r.Range(0, 4), &val, &wm, 0)
+			}
+			n3 := n2
+			if r.Chance(1, 2) {
+				n3 = r.Range(1, 4)
+			}
+			ops = append(ops, hx.Op(op{Op: "redeploy", N: n3, Reuse: r.Chance(1, 2)}))
+			n, n2 = n3, n3
+			wm = 0
+		}
 		if mode == "c06" && n2 >= 2 && r.Chance(1, 3) {
 			// some events, then one operator lets go of the old tables it shares with its neighbours while their
 			// NeedsTable answers are: real / RPC error / cancelled on the neighbour's side / slow
